@@ -225,11 +225,23 @@ def _mask_insertion(ctx, rule):
     return c03.r3_mask_insertion(ctx, rule)
 
 
+def _flags_reach_grammar(ctx, rule):
+    # honeywords are drawn from the language the options select: --skip_brute / --all_lower must reach PcfgGrammar on every path
+    # through main(), whatever the mode (seed C16-j passed skip_case only in true_prob_order mode)
+    from . import c14
+    return c14.r4_restored_flags_live(ctx, rule)
+
+
+def _options_forwarded(ctx, rule):
+    from . import c14
+    return c14.r13_options_forwarded(ctx, rule)
+
+
 def rules(tier):
     return [('C16.R1', r1_walk_weights), ('C16.R2', r2_uniform_choice), ('C16.R3', r3_seeding), ('C16.R4', r4_limit),
             ('C16.R5', c01.r8_uniform_scale), ('C16.R6', _renorm), ('C16.R7', _loaders_read_only),
             ('C16.R8', c04.r12_output_point_total), ('C16.R9', _loader_complete),
-            ('C16.R10', _loader_strip), ('C16.R11', _mask_insertion)]
+            ('C16.R10', _loader_strip), ('C16.R11', _mask_insertion), ('C16.R12', _flags_reach_grammar), ('C16.R13', _options_forwarded)]
 
 
 META = {
